@@ -48,4 +48,105 @@ theorem mineFrom_sound (Hs : Hashes) (version number : Nat) (hnn : Bytes) (targe
         have := mineFrom_sound Hs version number hnn target fuel _ nonce digest h
         simpa [hv] using this
 
+
+/-! ## the interleaving model with private buffers -/
+
+/-- invariant of the private-buffer sealer: every thread's buffer / result belongs to ITS OWN current nonce, and what has been
+    reported meets the target with the zero digest. -/
+structure SealInv (Hs : Hashes) (version : Nat) (hnn : Bytes) (target : Int) (st : SealState) : Prop where
+  buf : ∀ m ∈ st.miners, m.pc = .hash → m.buf = sealSeed hnn m.nonce
+  res : ∀ m ∈ st.miners, m.pc = .compare → m.res = Hs.vh version (sealSeed hnn m.nonce)
+  found : ∀ n d, st.found = some (n, d) → d = zeroDigest ∧ (beNat (Hs.vh version (sealSeed hnn n)) : Int) ≤ target
+
+theorem mem_set_cases {α : Type} (l : List α) (i : Nat) (x y : α) (h : y ∈ l.set i x) : y = x ∨ y ∈ l := by
+  rcases List.mem_or_eq_of_mem_set h with h | h
+  · exact Or.inr h
+  · exact Or.inl h
+
+theorem sealStep_inv (Hs : Hashes) (version : Nat) (hnn : Bytes) (target : Int) (st : SealState) (i : Nat)
+    (h : SealInv Hs version hnn target st) : SealInv Hs version hnn target (sealStep Hs version hnn target false st i) := by
+  unfold sealStep
+  cases hf : st.found with
+  | some x => simpa [hf] using h
+  | none =>
+    simp only
+    cases hm : st.miners[i]? with
+    | none => simpa using h
+    | some m =>
+      have hmem : m ∈ st.miners := List.mem_of_getElem? hm
+      simp only
+      cases hpc : m.pc with
+      | write =>
+        simp only [Bool.false_eq_true, if_false]
+        refine ⟨?_, ?_, ?_⟩
+        · intro m' hm' hp
+          rcases mem_set_cases _ _ _ _ hm' with rfl | hm'
+          · rfl
+          · exact h.buf m' hm' hp
+        · intro m' hm' hp
+          rcases mem_set_cases _ _ _ _ hm' with rfl | hm'
+          · cases hp
+          · exact h.res m' hm' hp
+        · intro n d hnd; simp only [hf] at hnd; cases hnd
+      | hash =>
+        simp only [Bool.false_eq_true, if_false]
+        refine ⟨?_, ?_, ?_⟩
+        · intro m' hm' hp
+          rcases mem_set_cases _ _ _ _ hm' with rfl | hm'
+          · cases hp
+          · exact h.buf m' hm' hp
+        · intro m' hm' hp
+          rcases mem_set_cases _ _ _ _ hm' with rfl | hm'
+          · simp only; rw [h.buf m hmem hpc]
+          · exact h.res m' hm' hp
+        · intro n d hnd; simp only [hf] at hnd; cases hnd
+      | compare =>
+        simp only
+        by_cases hle : (beNat m.res : Int) ≤ target
+        · simp only [hle, if_true]
+          refine ⟨?_, ?_, ?_⟩
+          · intro m' hm' hp
+            rcases mem_set_cases _ _ _ _ hm' with rfl | hm'
+            · cases hp
+            · exact h.buf m' hm' hp
+          · intro m' hm' hp
+            rcases mem_set_cases _ _ _ _ hm' with rfl | hm'
+            · cases hp
+            · exact h.res m' hm' hp
+          · intro n d hnd
+            simp only [Option.some.injEq, Prod.mk.injEq] at hnd
+            obtain ⟨rfl, rfl⟩ := hnd
+            refine ⟨rfl, ?_⟩
+            rw [← h.res m hmem hpc]; exact hle
+        · simp only [hle, if_false]
+          refine ⟨?_, ?_, ?_⟩
+          · intro m' hm' hp
+            rcases mem_set_cases _ _ _ _ hm' with rfl | hm'
+            · cases hp
+            · exact h.buf m' hm' hp
+          · intro m' hm' hp
+            rcases mem_set_cases _ _ _ _ hm' with rfl | hm'
+            · cases hp
+            · exact h.res m' hm' hp
+          · intro n d hnd; simp only [hf] at hnd; cases hnd
+      | done => simpa using h
+
+theorem sealInit_inv (Hs : Hashes) (version : Nat) (hnn : Bytes) (target : Int) (starts : List Nat) :
+    SealInv Hs version hnn target (sealInit starts) := by
+  refine ⟨?_, ?_, ?_⟩
+  · intro m hm hp
+    simp only [sealInit, List.mem_map] at hm
+    obtain ⟨s, _, rfl⟩ := hm
+    cases hp
+  · intro m hm hp
+    simp only [sealInit, List.mem_map] at hm
+    obtain ⟨s, _, rfl⟩ := hm
+    cases hp
+  · intro n d h; simp [sealInit] at h
+
+theorem sealRun_inv (Hs : Hashes) (version : Nat) (hnn : Bytes) (target : Int) : ∀ (schedule : List Nat) (st : SealState),
+    SealInv Hs version hnn target st → SealInv Hs version hnn target (schedule.foldl (sealStep Hs version hnn target false) st)
+  | [], _, h => h
+  | i :: rest, st, h => sealRun_inv Hs version hnn target rest _ (sealStep_inv Hs version hnn target st i h)
+
 end Aqv.Pow
